@@ -1455,11 +1455,12 @@ def rule_enum(ctx):
         # ENUM-ZIP: same ident term in decl / ser / de; same str term in ser / de
         s_ctor, s_str, s_el = ser_pairs
         d_ctor, d_str, d_el = de_pairs
-        if repr(s_ctor) != repr(d_ctor) or repr(s_ctor) != repr(decl_ident):
+        sb_ = lambda x_: repr(TM.strip_bases(x_))     # the same computation, whichever instance of the module it was expanded for
+        if sb_(s_ctor) != sb_(d_ctor) or sb_(s_ctor) != sb_(decl_ident):
             dd.add(bad('ENUM-ZIP', inst, 'variant identifiers differ between declaration/serialize/deserialize: %s | %s | %s' %
                        (P.show(decl_ident, 1, 4)[:80], P.show(s_ctor, 1, 4)[:80], P.show(d_ctor, 1, 4)[:80]), loc,
                        'a value maps to another variant (or the code does not compile)'))
-        elif repr(s_str) != repr(d_str):
+        elif sb_(s_str) != sb_(d_str):
             dd.add(bad('ENUM-ZIP', inst, 'wire strings differ between serialize and deserialize: %s | %s' % (P.show(s_str, 1, 4), P.show(d_str, 1, 4)), loc,
                        'serialize(deserialize(s)) != s'))
         else:
@@ -1509,8 +1510,31 @@ def rule_enum(ctx):
 # ------------------------------------------------------------------------------------------------
 
 def rule_body(ctx):
+    """per generated operation module (a struct?, its `mod`, its `impl GraphQLQuery`): when the entry has several
+    alternative ways to assemble the result (selected operation / all operations), each is one group of top-level items"""
     dd = Dedup()
-    items, ip, trees, roots = ctx.grammar()
+    all_items, ip, trees, roots = ctx.grammar()
+    groups = []
+    cur = []
+    seen_impl = False
+    for it in all_items:
+        if seen_impl and it.kind in ('struct', 'mod'):
+            groups.append(cur)
+            cur = []
+            seen_impl = False
+        cur.append(it)
+        if it.kind == 'impl' and 'GraphQLQuery' in _tokens(it.header):
+            seen_impl = True
+    if cur:
+        groups.append(cur)
+    if len(groups) <= 1:
+        return _rule_body_group(ctx, all_items, dd)
+    for g in groups:
+        _rule_body_group(ctx, g, dd)
+    return dd.list()
+
+
+def _rule_body_group(ctx, items, dd):
     mods = [it for it in items if it.kind == 'mod']
     impls = [it for it in items if it.kind == 'impl']
     if not mods or not impls:
